@@ -2,6 +2,7 @@
 """Confirm a seeded change (tests still pass, demo fails with / passes without) in a scratch worktree, then run the
 property's check on /repo with the patch applied (and undo it).  usage: seeded_eval.py <dir with patch.diff, demo.rs, meta.json> [more props]"""
 import os, sys, json, subprocess, shutil, re
+VERIF = os.path.dirname(os.path.dirname(os.path.abspath(__file__)))
 src = sys.argv[1].rstrip('/')
 meta = json.load(open(os.path.join(src, 'meta.json')))
 pid = meta['property']
@@ -38,10 +39,13 @@ rc, out = sh('git -C /repo apply %s' % os.path.join(src, 'patch.diff'))
 assert rc == 0, out
 try:
     res['checks'] = {}
-    for p in [pid] + sys.argv[2:]:
+    extra = sys.argv[2:]
+    if extra == ['--all']:
+        extra = [c['property_id'] for c in json.load(open(os.path.join(VERIF, 'MANIFEST.json')))['checks'] if c['property_id'] != pid]
+    for p in [pid] + extra:
         env = dict(os.environ, VERIF_EVIDENCE_DIR='/tmp/mut-evidence')
-        pr = subprocess.run(['python3', 'tools/check.py', p], cwd='/verif', capture_output=True, text=True, env=env)
-        lines = [l for l in pr.stdout.splitlines() if re.match(r'VIOLATION|UNDECIDED|OK |FAILED-OBL', l)]
+        pr = subprocess.run(['python3', 'tools/check.py', p], cwd=VERIF, capture_output=True, text=True, env=env)
+        lines = [l[:300] for l in pr.stdout.splitlines() if re.match(r'VIOLATION|UNDECIDED|OK |FAILED-OBL|FAILING-INPUT', l)]
         res['checks'][p] = {'rc': pr.returncode, 'lines': lines[:8]}
 finally:
     subprocess.run('git -C /repo checkout -- .', shell=True)
